@@ -16,6 +16,8 @@
 #include <array>
 #include <utility>
 #include <sys/uio.h>
+#include <fcntl.h>
+#include <unistd.h>
 #include "core.h"
 #include "array.h"
 #include "message.h"
@@ -39,6 +41,7 @@ static std::string idname(uint64_t id)
 {
 	if (id == ID_GO) return "#go";
 	if (id == ID_STOP) return "#stop";
+	if (id == UINTPTR_MAX) return "UINTPTR_MAX";
 	for (const char *t : unknown_txt) if (id == djb2x(t)) return std::string("#") + t;
 	return std::to_string((unsigned long long) id);
 }
@@ -47,7 +50,7 @@ static const char *ansname[] = { "->0", "->Default", "->Default|Fail,id:=0", "->
 enum { F_DEFAULT = mpt::event::Default, F_FAIL = mpt::event::Fail, F_TERM = mpt::event::Terminate };
 
 // ---------------------------------------------------------------- alphabet
-enum Kind { DSET, XSET, DCLR, CSET, CCLR, EMIT, EMSG, EMSG_EMPTY, ENULL, HASH, HASH_BAD, SETERR, SETDEF, FINI, XRESERVE,
+enum Kind { DSET, XSET, DCLR, CSET, CCLR, EMIT, EMSG, EMSG_EMPTY, ENULL, HASH, HASH_BAD, SETERR, SETDEF, FINI, XRESERVE, XRESERVE_RAW,
             W_RESERVE, W_REL, W_SET, W_CLEAR };
 struct Letter { Kind k; uint64_t id; int ans; int shape; std::string name; std::string sig; };
 
@@ -66,6 +69,7 @@ static void build_letters(int alpha, bool tied, std::vector<Letter> &L)
 		L.push_back(Letter{W_SET, 126, 0, 0, "command_set(126,h)", "command_set"});
 		L.push_back(Letter{W_SET, 127, 0, 0, "command_set(127,h)", "command_set"});
 		if (th) L.push_back(Letter{W_SET, 32767, 0, 0, "command_set(32767,h)", "command_set"});
+		L.push_back(Letter{W_SET, UINTPTR_MAX, 0, 0, "command_set(UINTPTR_MAX,h)", "command_set"});   // any id is legal for mpt_command_set (e.g. a text hash)
 		L.push_back(Letter{W_CLEAR, 0, 0, 0, "command_clear", "command_clear"});
 		return;
 	}
@@ -100,7 +104,8 @@ static void build_letters(int alpha, bool tied, std::vector<Letter> &L)
 	L.push_back(Letter{SETERR, 0, 0, 0, "dispatch::set_error(NULL)", "set_error"});
 	for (uint64_t id : R) L.push_back(Letter{SETDEF, id, 0, 0, "dispatch::set_default(" + idname(id) + ")", "set_default"});
 	L.push_back(Letter{FINI, 0, 0, 0, "dispatch_fini", "dispatch_fini"});
-	if (th) { L.push_back(Letter{XRESERVE, 1, 0, 0, "dispatch.reserve(width 1)", "command_reserve"}); L.push_back(Letter{XRESERVE, 2, 0, 0, "dispatch.reserve(width 2)", "command_reserve"}); }
+	if (th) { L.push_back(Letter{XRESERVE, 1, 0, 0, "dispatch.reserve(width 1)", "command_reserve"}); L.push_back(Letter{XRESERVE, 2, 0, 0, "dispatch.reserve(width 2)", "command_reserve"});
+	          L.push_back(Letter{XRESERVE_RAW, 1, 0, 0, "dispatch.reserve(width 1), slot not activated", "command_reserve"}); }
 }
 // alphabet index: 0 dispatcher/small, 1 dispatcher/large, 2 reply table/small, 3 reply table/large, 4 dispatcher/small with tied flavours
 static const std::vector<Letter> &letters(int alpha)
@@ -153,6 +158,7 @@ struct Sys {
 	std::vector<Tok> toks;
 	int tramp_tok[NTRAMP], next_tramp;
 	std::map<uint64_t, int> reg;   // model: id -> token (dispatcher table or reply table)
+	std::set<uint64_t> rsv;        // model: ids reserved on the dispatcher table whose slot was never activated (library placeholder, no handler registered)
 	uint64_t def;                  // model: default id
 	int fb;                        // model: fallback: -2 built-in, -1 none, >= 0 token
 	std::vector<Obs> obs;
@@ -290,6 +296,7 @@ struct Sys {
 	{
 		mpt::command *c = sub ? mpt::mpt_command_get(warr(), id) : d->handler(id);
 		auto it = reg.find(id);
+		if (rsv.count(id)) return c ? true : fail("lookup-mismatch", "reserved id " + idname(id) + " vanished from the table");
 		if (!c && it == reg.end()) return true;
 		if (!c) return fail("lookup-mismatch", "no handler found for registered id " + idname(id));
 		if (it == reg.end()) return fail("lookup-mismatch", "a handler is found for unregistered id " + idname(id));
@@ -298,7 +305,7 @@ struct Sys {
 	}
 	bool lookup_ok()
 	{
-		static const uint64_t fixd[] = {0, 1, 2, 3, 9, ID_GO, ID_STOP, ID_XX}, fixw[] = {1, 2, 126, 127, 128, 32767};
+		static const uint64_t fixd[] = {0, 1, 2, 3, 9, ID_GO, ID_STOP, ID_XX}, fixw[] = {0, 1, 2, 126, 127, 128, 32767, UINTPTR_MAX};
 		if (!sub) { for (uint64_t id : fixd) if (!lookup_one(id)) return false; }
 		else for (uint64_t id : fixw) if (!lookup_one(id)) return false;
 		for (auto &kv : reg) if (!lookup_one(kv.first)) return false;
@@ -398,6 +405,7 @@ std::string Sys::canon()
 		for (size_t i = 0; i < n; ++i) {
 			s += idname(c[i].id);
 			if (!c[i].cmd) s += "/- ";
+			else if (rsv.count(c[i].id)) s += "/R ";
 			else { auto it = reg.find(c[i].id); s += (it != reg.end() && c[i].cmd == rfn(it->second) && c[i].arg == targ(it->second)) ? (toks[it->second].tramp >= 0 ? "/N " : "/L ") : "/L! "; }
 		}
 		s += "]";
@@ -410,6 +418,7 @@ std::string Sys::canon()
 	}
 	s += " | M{";
 	for (auto &kv : reg) { s += idname(kv.first); s += ' '; }
+	if (!rsv.empty()) { s += "} R{"; for (uint64_t id : rsv) { s += idname(id); s += ' '; } }
 	s += "} def=" + idname(def) + (fb == -2 ? " fb=B" : (fb == -1 ? " fb=0" : (toks[fb].tramp >= 0 ? " fb=N" : " fb=T")));
 	if (had_growth) s += " g";
 	if (had_free) s += " f";
@@ -442,8 +451,8 @@ bool Sys::apply_disp(const Letter &l)
 		int ret = l.k == DSET ? LIB(mpt::mpt_dispatch_set(d, l.id, hfn(t), targ(t))) : (LIB(d->set_handler(l.id, hfn(t), targ(t))) ? 0 : -1);
 		if (!settle()) return false;
 		if (have) { if (ret >= 0) return fail("accepted-duplicate", "second registration for a used id reported success (mpt_dispatch_set documents refusal)"); cnt("path:dispatch_set refuses used id"); }
-		else if (ret < 0) cnt("spurious refusal of registration (not flagged)");
-		else { reg[l.id] = t; cnt("path:registered"); if (free0) cnt("path:freed slot reused"); }
+		else if (ret < 0) cnt(rsv.count(l.id) ? "registration refused for a reserved id (not flagged)" : "spurious refusal of registration (not flagged)");
+		else { reg[l.id] = t; rsv.erase(l.id); cnt("path:registered"); if (free0) cnt("path:freed slot reused"); }
 		track_table(cap0);
 		return lookup_ok(); }
 	case DCLR: {
@@ -452,6 +461,7 @@ bool Sys::apply_disp(const Letter &l)
 		int ret = LIB(mpt::mpt_dispatch_set(d, l.id, 0, 0));
 		if (have && ret < 0 && obs.empty()) { cnt("spurious refusal of removal (not flagged)"); return lookup_ok(); }
 		if (have) { exp.push_back(Exp{reg[l.id], true}); reg.erase(l.id); had_free = true; }
+		else if (ret >= 0 && rsv.erase(l.id)) had_free = true;   // the reserved slot is given back
 		if (!settle()) return false;
 		if (have) cnt("path:end-of-life on removal"); else cnt("path:removal of unregistered id");
 		return lookup_ok(); }
@@ -462,7 +472,7 @@ bool Sys::apply_disp(const Letter &l)
 		if (have) exp.push_back(Exp{reg[l.id], true});
 		int ret = LIB(mpt::mpt_command_set(d, l.id, rfn(t), targ(t)));
 		if (ret < 0 && obs.empty()) { cnt("spurious refusal of registration (not flagged)"); return lookup_ok(); }
-		reg[l.id] = t;
+		reg[l.id] = t; rsv.erase(l.id);
 		if (!settle()) return false;
 		if (have) cnt("path:end-of-life on replacement"); else { cnt("path:registered"); if (free0) cnt("path:freed slot reused"); }
 		track_table(cap0);
@@ -472,6 +482,7 @@ bool Sys::apply_disp(const Letter &l)
 		setcls(have ? "registered" : "unregistered", tclass());
 		if (have) { exp.push_back(Exp{reg[l.id], true}); reg.erase(l.id); had_free = true; }
 		LIB(mpt::mpt_command_set(d, l.id, 0, 0));
+		if (rsv.erase(l.id)) had_free = true;
 		if (!settle()) return false;
 		if (have) cnt("path:end-of-life on removal");
 		track_table(cap0);
@@ -517,6 +528,28 @@ bool Sys::apply_disp(const Letter &l)
 				if (raw & F_DEFAULT) { raw &= ~F_DEFAULT; ndef = id_after; }
 				if (ndef) raw |= F_DEFAULT;
 				want_ret = raw;
+			}
+		}
+		// An event for a reserved, never activated id: no handler was registered for it (mpt_command_reserve: "set control handler
+		// of returned element to activate"), so the model sends it to the fallback.  The library placeholder in that slot is a
+		// reply callback; the call is tried in a forked child first so that a fault is a violation of this case only.
+		if (l.k != EMSG_EMPTY && evid && rsv.count(evid)) {
+			setcls("reserved-slot-not-activated");
+			if (l.ans != A0 || l.shape) return false;   // the harness answer / message shape cannot matter here: one letter per kind is enough (not enabled otherwise)
+			cnt("path:event for a reserved, not activated id");
+			{
+				// The real call must never fault in this process (also while replaying a prefix or listing jobs).  What the placeholder
+				// does with an event does not depend on the dispatcher state, so the outcome is probed in a forked child once per
+				// process and letter kind and reused afterwards (a fork of the sanitized process per case is far too slow).
+				static std::string verdict[3];
+				std::string &res = verdict[l.k == EMIT ? 0 : (l.k == EMSG ? 1 : 2)];
+				if (res.empty() || r.replaying) {
+					mpt::event *evp = l.k == ENULL ? 0 : &ev;
+					res = in_child([&]() { asan_error(); mpt::mpt_dispatch_emit(d, evp); return std::string(asan_error() ? "asan" : "ok"); });
+				}
+				// one failure group for "faults" and "sanitizer report" (which of the two happens depends on stack garbage)
+				if (!res.empty() && res[0] == '\x01') return fail("reply-callback-called-with-event", "the event is passed to the placeholder reply callback of the reserved slot, which reads it as a message: the call does not return (" + res.substr(1) + ")");
+				if (res == "asan") return fail("reply-callback-called-with-event", "the event is passed to the placeholder reply callback of the reserved slot, which reads it as a message (AddressSanitizer: read behind the event)");
 			}
 		}
 		int ret = LIB(mpt::mpt_dispatch_emit(d, l.k == ENULL ? 0 : &ev));
@@ -644,20 +677,24 @@ bool Sys::apply_disp(const Letter &l)
 		if (fb >= 0) exp.push_back(Exp{fb, true});
 		LIB((mpt::mpt_dispatch_fini(d), 0));
 		if (!exp.empty()) cnt("path:end-of-life on fini");
-		reg.clear(); def = 0; fb = -1; had_free = had_growth = false;
+		reg.clear(); rsv.clear(); def = 0; fb = -1; had_free = had_growth = false;
 		if (!settle()) return false;
 		return lookup_ok(); }
-	case XRESERVE: {
+	case XRESERVE: case XRESERVE_RAW: {
 		setcls(tclass(), tbuf() && tbuf()->_content_traits ? "typed" : "untyped");
 		uint64_t max = l.id == 1 ? 127 : 32767;
 		mpt::command *c = LIB(d->reserve(l.id));
 		if (!settle()) return false;
 		if (!c) { cnt("reserve refused (not flagged)"); return lookup_ok(); }
-		if (reg.count(c->id)) return fail("duplicate-id", "reserved id " + idname(c->id) + " is already in use");
-		if (c->id < 1 || c->id > max) return fail("id-out-of-width", "reserved id " + idname(c->id) + fmt(" does not fit %d byte(s)", (int) l.id));
-		int t = newtok(c->id, 0);
-		c->cmd = (raw_handler) H; c->arg = targ(t); reg[c->id] = t;
-		cnt("path:id reserved on dispatcher table"); nontrivial();
+		if (reg.count(c->id) || rsv.count(c->id)) return fail("duplicate-id", "reserved id " + idname(c->id) + " is already in use");
+		if (c->id > max) return fail("id-out-of-width", "reserved id " + idname(c->id) + fmt(" does not fit %d byte(s)", (int) l.id));
+		if (l.k == XRESERVE_RAW) { rsv.insert(c->id); cnt("path:id reserved on dispatcher table, slot not activated"); }
+		else {
+			int t = newtok(c->id, 0);
+			c->cmd = (raw_handler) H; c->arg = targ(t); reg[c->id] = t;
+			cnt("path:id reserved on dispatcher table");
+		}
+		nontrivial();
 		track_table(cap0);
 		return lookup_ok(); }
 	default: break;
@@ -682,11 +719,12 @@ bool Sys::apply_wait(const Letter &l)
 			return lookup_ok();   // compaction must keep all bindings
 		}
 		if (reg.count(c->id)) return fail("duplicate-id", "reserved id " + idname(c->id) + " belongs to an outstanding request");
-		if (c->id < 1 || c->id > max) return fail("id-out-of-width", "reserved id " + idname(c->id) + fmt(" does not fit %d byte(s)", (int) l.id));
+		if (c->id > max) return fail("id-out-of-width", "reserved id " + idname(c->id) + fmt(" does not fit %d byte(s)", (int) l.id));
 		int t = newtok(c->id, 2);
 		c->cmd = (raw_handler) H; c->arg = targ(t); reg[c->id] = t;
 		nontrivial(); cnt("path:id reserved");
 		if (top >= max) cnt("path:reserve searches low free id");
+		if (top == UINTPTR_MAX) cnt("path:reserve with id UINTPTR_MAX in the table");
 		if (free0) cnt("path:reserve compacts freed slots");
 		if (!cap0) cnt("path:reserve creates table");
 		track_table(cap0);
@@ -743,6 +781,7 @@ static int wait_depth(Tier t, unsigned prefill) { return t == Quick ? 6 : (prefi
 // a fault in the code under test must surface as a violation of the root job, not break the job listing)
 static std::string split_jobs()
 {
+	{ int nul = open("/dev/null", O_WRONLY); if (nul >= 0) { dup2(nul, 2); close(nul); } }   // sanitizer reports of probed cases do not belong into the job listing
 	Run tmp; tmp.tier = Thorough;
 	std::set<std::string> seen;
 	std::vector<std::vector<int> > level(1, std::vector<int>()), next;
@@ -786,12 +825,13 @@ static void requirements(Run &r, const std::string &job)
 			"path:hash to fallback", "path:hash without fallback" };
 		for (const char *k : req) r.require(k);
 	}
+	if (job == "large:root") { r.require("path:id reserved on dispatcher table, slot not activated"); r.require("path:event for a reserved, not activated id"); }
 	if (job == "closure") {
 		const char *req[] = { "path:freed slot reused", "path:table growth", "path:stale default cleared", "path:default replaced", "path:default kept" };
 		for (const char *k : req) r.require(k);
 	}
 	if (job.compare(0, 5, "wait:") == 0) {
-		const char *req[] = { "path:id reserved", "path:reserve compacts freed slots", "path:reserve searches low free id", "path:end-of-life on release",
+		const char *req[] = { "path:id reserved", "path:reserve compacts freed slots", "path:reserve searches low free id", "path:reserve with id UINTPTR_MAX in the table", "path:end-of-life on release",
 			"path:end-of-life on clear", "path:end-of-life on teardown" };
 		for (const char *k : req) r.require(k);
 		if (job != "wait:0") r.require("path:table growth"); else r.require("path:reserve creates table");
